@@ -125,7 +125,8 @@ func (se *SessionExecutor) doMultiStmts(reqCtx *util.RequestContext, sql string)
 
 	//multi-query
 	for index, piece := range piecesSql {
-		setContextSQLFingerprint(reqCtx, sql)
+		// the request context is shared by all pieces: its fingerprint (blacklist, statistics) must be this piece's
+		setContextSQLFingerprint(reqCtx, piece)
 		r, errRet = se.doQuery(reqCtx, piece)
 		if errRet != nil {
 			return nil, errRet
